@@ -97,6 +97,21 @@ class TxIds(Family):
             raise Viol('immutable and mutable transactions with equal fields compare unequal', True, False)
         if hash(a) != hash(b) or hash(a) != hash(CTransaction.deserialize(W.encode_tx(m))):
             raise Viol('hash() differs between equal objects (mutable / immutable twin, deserialised copy)', hash(a), hash(b))
+        # the default witness of a mutable transaction holds one (empty) entry per input in a list, meant to be filled in when
+        # signing: filling a slot in place after identifiers were computed, and emptying it again
+        if w == 'absent' and isinstance(getattr(b.wit, 'vtxinwit', None), list) and len(b.wit.vtxinwit) == len(m['vin']):
+            try:
+                b.wit.vtxinwit[-1] = CTxInWitness(CScriptWitness((b'filled', b'in')))
+                filled = True
+            except (TypeError, AttributeError):
+                filled = False
+            if filled:
+                mf = dict(m, wit=[[] for _ in m['vin'][:-1]] + [[b'filled', b'in']])
+                if b.GetTxid() != txid or b.GetHash() != W.wtxid(mf) or not b.has_witness() or b.serialize() != W.encode_tx(mf):
+                    raise Viol('after filling a slot of the default witness list in place the identifiers do not reflect the witness', (txid.hex(), W.wtxid(mf).hex()), (b.GetTxid().hex(), b.GetHash().hex()))
+                b.wit.vtxinwit[-1] = CTxInWitness()
+                if b.GetHash() != txid or b.has_witness():
+                    raise Viol('after emptying the slot again the witness hash is not the txid', txid.hex(), b.GetHash().hex())
         # altering / removing / adding witness data on the mutable twin never changes the txid
         for stack in ([b'zz'], []):
             b.wit = CTxWitness(tuple(CTxInWitness(CScriptWitness(tuple(stack))) for _ in m['vin']))
@@ -106,6 +121,18 @@ class TxIds(Family):
             m2['wit'] = [list(stack) for _ in m['vin']]
             if b.GetHash() != W.wtxid(m2):
                 raise Viol('witness hash after replacing the witness', W.wtxid(m2), b.GetHash())
+        # altering one witness stack in place, where the witness object of a mutable transaction holds a list
+        # (the default one does): the witness hash follows, the txid stays
+        if isinstance(getattr(b.wit, 'vtxinwit', None), list) and len(b.wit.vtxinwit) == len(m['vin']):
+            try:
+                b.wit.vtxinwit[-1] = CTxInWitness(CScriptWitness((b'in', b'place')))
+                edited = True
+            except (TypeError, AttributeError):
+                edited = False
+            if edited:
+                m2 = dict(m2, wit=[list(x) for x in m2['wit'][:-1]] + [[b'in', b'place']])
+                if b.GetTxid() != txid or b.GetHash() != W.wtxid(m2) or b.has_witness() is False:
+                    raise Viol('after replacing one witness stack in place the identifiers do not reflect the current witness', (txid, W.wtxid(m2)), (b.GetTxid(), b.GetHash()))
         # ... and after editing non-witness fields the mutable object reports the identifiers of its *current*
         # field values, identical to a freshly built immutable object with those values (no stale cache)
         m3 = {'version': m['version'], 'locktime': m['locktime'] ^ 1, 'wit': m2['wit'],
